@@ -5,7 +5,7 @@ from symx.runner import Ob
 ID = "C21"
 BR = "breezy.branch"
 BB = "breezy.bzr.branch"
-FUNCTIONS = [BR + ":GenericInterBranch._update_revisions", BR + ":GenericInterBranch._pull", BR + ":GenericInterBranch._basic_push",
+FUNCTIONS = [BR + ":GenericInterBranch.push", BR + ":GenericInterBranch._update_revisions", BR + ":GenericInterBranch._pull", BR + ":GenericInterBranch._basic_push",
              BR + ":Branch._check_if_descendant_or_diverged", BR + ":Branch._revision_relations",
              BB + ":BzrBranch.set_last_revision_info", BB + ":BzrBranch8._check_history_violation"]
 STUBS = ["history = a family of DAGs with SYMBOLIC sizes: a common trunk of c revisions, t further revisions on the target, "
@@ -19,7 +19,7 @@ ASSUMPTIONS = ["the recorded revision numbers of both branches are correct befor
                "DivergedBranches; with overwrite it always moves; with append-only history a move to a revision whose "
                "left-hand history lacks the old tip is refused; the recorded revno is the left-hand length of the tip"]
 OUTSIDE = ["the real graph code (vcsgraph heads / distance computations, compiled) and arbitrary DAG shapes beyond the family above, "
-           "ghosts", "fetching, bound targets (master first), hooks, tag merging, RemoteBranch / git branches"]
+           "ghosts", "fetching, hooks, tag merging, RemoteBranch / git branches, pull into a bound branch"]
 
 
 class Rev(bytes):
@@ -47,7 +47,7 @@ class Rev(bytes):
 NULL = b"null:"
 
 
-def ob_tip(cx):
+def _run(cx, bound):
     B = cx.mod(BR)
     Z = cx.mod(BB)
     E = cx.real("breezy.errors")
@@ -132,14 +132,15 @@ def ob_tip(cx):
     class Fmt:
         supports_reference_locations = False
 
-    log = []
     append_only = bool(cx.choose("append_only", 0, 1))
     target_tip = tip("T", t)
     source_tip = tip("S", s)
 
     class Target(Z.BzrBranch8):
-        def __init__(self):
-            self._last_revision_info_cache = (lh_len(target_tip), target_tip)
+        base = user_url = None               # plain attributes instead of the real class's properties
+
+        def __init__(self, tip0, base, master=None):
+            self._last_revision_info_cache = (lh_len(tip0), tip0)
             self._revision_history_cache = None
             self._revision_id_to_revno_cache = None
             self._partial_revision_id_to_revno_cache = {}
@@ -152,9 +153,10 @@ def ob_tip(cx):
             self.tags = Tags
             self._format = Fmt
             self.written = None
-
-        base = "target/"
-        user_url = "target/"
+            self.tip0 = tip0
+            self.base = self.user_url = base
+            self.master = master
+            self.oplog = []
 
         def lock_write(self, token=None):
             return contextlib.nullcontext()
@@ -165,14 +167,20 @@ def ob_tip(cx):
         def get_append_revisions_only(self):
             return append_only
 
+        def get_bound_location(self):
+            return None if self.master is None else self.master.base
+
+        def get_master_branch(self, possible_transports=None):
+            return self.master
+
         def _write_last_revision_info(self, revno, revision_id):
             self.written = (revno, revision_id)
-            log.append("write")
+            self.oplog.append("write")
 
         def _read_last_revision_info(self):
             if self.written is not None:
                 return self.written
-            return (lh_len(target_tip), target_tip)
+            return (lh_len(self.tip0), self.tip0)
 
     class Source:
         base = "source/"
@@ -195,10 +203,23 @@ def ob_tip(cx):
         @staticmethod
         def _push_should_merge_tags():
             return False
-    target = Target()
-    ib = B.GenericInterBranch(Source, target)
-    ib.fetch = lambda stop_revision=None, **k: log.append("fetch")
-    op = cx.pick("op", ["update_revisions", "pull", "push"])
+
+    def inter(src, tgt):
+        i = B.GenericInterBranch(src, tgt)
+        i.fetch = lambda stop_revision=None, **k: tgt.oplog.append("fetch")
+        return i
+    B.InterBranch.get = staticmethod(inter)
+    target = Target(target_tip, "target/")
+    local = None
+    if bound:
+        # a branch bound to the target (its master): its tip is `behind` revisions back on the master's left-hand history
+        behind = cx.int("local_behind", 0, cx.p("maxextra"))
+        cx.assume(behind <= c + t)
+        pos = c + t - behind
+        local_tip = NULL if T(pos == 0) else (Rev(cx, "C", pos) if T(pos <= c) else Rev(cx, "T", pos - c))
+        local = Target(local_tip, "local/", master=target)
+    ib = inter(Source, local if bound else target)
+    op = "bound_push" if bound else cx.pick("op", ["update_revisions", "pull", "push"])
     # pull / push take False, True or a collection of {"history", "tags"}: only "history" permits dropping revisions
     ow_arg = cx.pick("overwrite", [False, True, (), ("tags",), ("history",), ("history", "tags")])
     if op == "update_revisions" and not isinstance(ow_arg, bool):
@@ -218,48 +239,91 @@ def ob_tip(cx):
             ib._update_revisions(requested, overwrite=overwrite)
         elif op == "pull":
             res = ib._pull(overwrite=ow_arg, stop_revision=requested, run_hooks=False)
-        else:
+        elif op == "push":
             res = ib._basic_push(ow_arg, requested)
+        else:
+            res = ib.push(ow_arg, requested)
     except E.DivergedBranches:
         outcome = "diverged"
     except E.AppendRevisionsOnlyViolation:
         outcome = "append_only"
-    new_revno, new_tip = target.last_revision_info()
-    old_revno = lh_len(target_tip)
-    if not isinstance(stop, Rev):
-        want = "unchanged"                   # nothing to pull from an empty source
-    elif anc(stop, target_tip):
-        want = "moved_back" if (overwrite and not (stop == target_tip)) else "unchanged"
-    elif anc(target_tip, stop):
-        want = "moved"
-    else:
-        want = "moved" if overwrite else "diverged"
-    if want in ("moved", "moved_back") and append_only and isinstance(target_tip, Rev):
-        on_lefthand = stop.line == target_tip.line and T(target_tip.idx <= stop.idx) or (target_tip.line == "C")
-        if want == "moved_back" or not on_lefthand:
-            want = "append_only"
-    if want in ("moved", "moved_back"):
-        cx.require(outcome == "ok", "the operation failed (%s) although the requested revision can be reached" % outcome)
-        cx.require(new_tip == stop, "tip is %r, requested %r" % (new_tip, stop))
-        cx.require(T(new_revno == lh_len(stop)), "recorded revno %r is not the length of the tip's left-hand history %r" %
-                   (new_revno, lh_len(stop)))
-        cx.require("fetch" in log and log.index("fetch") < log.index("write"), "tip moved before the revisions were fetched")
+
+    def classify(tip0):
+        if not isinstance(stop, Rev):
+            want = "unchanged"                   # nothing to pull from an empty source
+        elif anc(stop, tip0):
+            want = "moved_back" if (overwrite and not (stop == tip0)) else "unchanged"
+        elif anc(tip0, stop):
+            want = "moved"
+        else:
+            want = "moved" if overwrite else "diverged"
+        if want in ("moved", "moved_back") and append_only and isinstance(tip0, Rev):
+            on_lefthand = stop.line == tip0.line and T(tip0.idx <= stop.idx) or (tip0.line == "C")
+            if want == "moved_back" or not on_lefthand:
+                want = "append_only"
+        return want
+
+    def check(branch, want, what):
+        new_revno, new_tip = branch.last_revision_info()
+        if want in ("moved", "moved_back"):
+            cx.require(new_tip == stop, "%s tip is %r, requested %r" % (what, new_tip, stop))
+            cx.require(T(new_revno == lh_len(stop)), "%s: recorded revno %r is not the length of the tip's left-hand history %r" %
+                       (what, new_revno, lh_len(stop)))
+            cx.require("fetch" in branch.oplog and branch.oplog.index("fetch") < branch.oplog.index("write"),
+                       "%s tip moved before the revisions were fetched" % what)
+        else:
+            cx.require(new_tip == branch.tip0 and T(new_revno == lh_len(branch.tip0)),
+                       "%s tip changed (%r -> %r) although the operation should leave it (%s)" % (what, branch.tip0, new_tip, want))
+        return new_revno, new_tip
+    want = classify(target_tip)
+    if not bound:
+        if want in ("moved", "moved_back"):
+            cx.require(outcome == "ok", "the operation failed (%s) although the requested revision can be reached" % outcome)
+        else:
+            cx.require(outcome == ("ok" if want == "unchanged" else want), "expected %s, the operation ended with %s" % (want, outcome))
+        new_revno, new_tip = check(target, want, "target")
         cx.cover(want)
+        if outcome == "ok" and op in ("pull", "push"):
+            cx.require(res.old_revid == target_tip and res.new_revid == new_tip and T(res.old_revno == lh_len(target_tip))
+                       and T(res.new_revno == new_revno), "result object misreports the old / new tip")
+        cx.observe("outcome", (outcome, new_revno))
+        return
+    # push into a bound branch: the master decides; when it refuses, neither tip moves
+    want_local = classify(local.tip0)
+    if want in ("diverged", "append_only"):
+        cx.require(outcome == want, "the master must refuse (%s), the push ended with %s" % (want, outcome))
+        check(target, "unchanged", "master")
+        check(local, "unchanged", "bound branch (its master refused the push)")
+        cx.cover("master_refused")
+    elif want_local in ("diverged", "append_only"):
+        cx.require(outcome == want_local, "expected %s for the bound branch, the push ended with %s" % (want_local, outcome))
+        check(local, "unchanged", "bound branch")
     else:
-        cx.require(outcome == ("ok" if want == "unchanged" else want), "expected %s, the operation ended with %s" % (want, outcome))
-        cx.require(new_tip == target_tip and T(new_revno == old_revno),
-                   "tip changed (%r -> %r) although the operation should leave it (%s)" % (target_tip, new_tip, want))
-        cx.cover(want)
-    if outcome == "ok" and op in ("pull", "push"):
-        cx.require(res.old_revid == target_tip and res.new_revid == new_tip and T(res.old_revno == old_revno)
-                   and T(res.new_revno == new_revno), "result object misreports the old / new tip")
-    cx.observe("outcome", (outcome, new_revno))
+        cx.require(outcome == "ok", "the push failed (%s) although master and bound branch can take the revision" % outcome)
+        check(target, want, "master")
+        new_revno, new_tip = check(local, want_local, "bound branch")
+        cx.require(res.new_revid == new_tip and T(res.new_revno == new_revno), "result object misreports the new tip")
+        cx.cover("both_" + want_local)
+    cx.observe("outcome", (outcome,))
+
+
+def ob_tip(cx):
+    _run(cx, False)
+
+
+def ob_bound_push(cx):
+    _run(cx, True)
 
 
 def obligations(tier):
     q = tier == "quick"
     p = dict(maxtrunk=3 if q else 12, maxextra=2 if q else 5)
-    return [Ob("tip_movement", ob_tip, [BR, BB], p, 900 if q else 7200, 2 if q else 1,
+    pb = dict(maxtrunk=2 if q else 6, maxextra=2 if q else 3)
+    return [Ob("bound_push", ob_bound_push, [BR, BB], pb, 900 if q else 7200, 2 if q else 1,
+               ["master_refused", "both_moved", "both_unchanged"],
+               bounds="push into a branch bound to a master: trunk 0..%(maxtrunk)d, 0..%(maxextra)d more revisions on master and "
+                      "source, the bound branch 0..%(maxextra)d revisions behind its master; overwrite forms, append-only on/off" % pb),
+            Ob("tip_movement", ob_tip, [BR, BB], p, 900 if q else 7200, 2 if q else 1,
                ["moved", "unchanged", "diverged", "append_only", "moved_back"],
                bounds="trunk 0..%(maxtrunk)d revisions, 0..%(maxextra)d more on each branch, optional merge of the target tip into "
                       "any source revision, requested revision = any revision of the source's left-hand history or none; "
